@@ -249,6 +249,24 @@ Definition spray_step (c : sconf) (s : sstate) (e : sevent) (choice : list N) : 
   | SeGC => Some (if ss_stored s then s else set_meta_stored s None false, [])
   end.
 
+(* an event processed while a metadata garbage collection is in progress.  GarbageCollect holds the
+   write lock of the metadata for its whole duration and every metadata access of the event takes
+   that lock, so the collection is atomic with respect to each of them; it touches only entries of
+   bundles the store does not know.  For one bundle the run is therefore the event followed
+   ([gc_first = false]) or preceded ([gc_first = true]) by SeGC. *)
+Definition spray_step_gc (gc_first : bool) (c : sconf) (s : sstate) (e : sevent) (choice : list N)
+  : option (sstate * list ssend) :=
+  if gc_first then
+    match spray_step c s SeGC [] with
+    | Some (s1, _) => spray_step c s1 e choice
+    | None => None
+    end
+  else
+    match spray_step c s e choice with
+    | Some (s1, o) => match spray_step c s1 SeGC [] with Some (s2, _) => Some (s2, o) | None => None end
+    | None => None
+    end.
+
 Fixpoint spray_run (c : sconf) (s : sstate) (h : list (sevent * list N)) : option (sstate * list ssend) :=
   match h with
   | [] => Some (s, [])
